@@ -77,7 +77,12 @@ func runBounded(repo, verif, prop, tier string, seed int) ([]boundedResult, []bo
 			timeout = 900
 		}
 		ctx, cancel := context.WithTimeout(context.Background(), time.Duration(timeout+30)*time.Second)
-		cmd := exec.CommandContext(ctx, "go", "test", "-overlay", ovPath, "-vet=off", "-timeout", fmt.Sprintf("%ds", timeout), "-run", "^TestGovcBounded", "-count=1", "-v", ".")
+		args := []string{"test", "-overlay", ovPath, "-vet=off", "-timeout", fmt.Sprintf("%ds", timeout), "-run", "^TestGovcBounded", "-count=1", "-v"}
+		if fl, err := os.ReadFile(filepath.Join(dir, "FLAGS")); err == nil {
+			args = append(args, strings.Fields(string(fl))...)
+		}
+		args = append(args, ".")
+		cmd := exec.CommandContext(ctx, "go", args...)
 		cmd.Dir = filepath.Join(repo, pkgDir)
 		cmd.Env = append(os.Environ(), "GOFLAGS=-mod=mod", "GOPROXY=off", "GOSUMDB=off", "GOTOOLCHAIN=local",
 			"VERIF_TIER="+tier, fmt.Sprintf("VERIF_SEED=%d", seed))
